@@ -395,7 +395,12 @@ func c13SetOracle(c c13SetCase) error {
 			if c.First >= 0 && (a == c.Order[c.First] || b == c.Order[c.First]) {
 				continue
 			}
-			r, err := c13Relation(u, a, b, 1, lvl)
+			var r int
+			err := guard(func() error {
+				var e error
+				r, e = c13Relation(u, a, b, 1, lvl)
+				return e
+			})
 			if err != nil {
 				return err
 			}
